@@ -251,8 +251,8 @@ func encodeLiteral(r *rand.Rand, text []rune, fam quoteFamily) string {
 			sb.WriteString("`TAB`")
 		case ch == ' ' && r.Intn(4) == 0:
 			sb.WriteString("`SP`")
-		case ch == 0:
-			sb.WriteString(hexEsc(r, 0))
+		case ch == 0 && r.Intn(2) == 0:
+			sb.WriteString(hexEsc(r, 0)) // (the other half of the time U+0000 is written raw, like any character)
 		case r.Intn(12) == 0:
 			sb.WriteString(hexEsc(r, ch))
 		default:
@@ -271,6 +271,8 @@ func c13RandText(r *rand.Rand, n int) []rune {
 		switch r.Intn(10) {
 		case 0:
 			out[i] = rune(0x4E00 + r.Intn(0x5000))
+		case 2:
+			out[i] = []rune{0, 0, 1, 0x7F, 0x85, 0x2028, 0x2029, 0xFEFF, 0xFFFE, 0xFFFF, 0x10FFFF}[r.Intn(11)]
 		case 1:
 			out[i] = rune(1 + r.Intn(0x10FFFF))
 			if out[i] >= 0xD800 && out[i] <= 0xDFFF {
